@@ -306,8 +306,9 @@ func toLib(f *ref.Frame, cmds bool) (lorawan.PHYPayload, error) {
 	up := ref.IsUplinkMType(f.MType)
 	switch {
 	case ref.IsData(f.MType):
-		m := &lorawan.MACPayload{FHDR: lorawan.FHDR{DevAddr: Addr(f.DevAddr), FCnt: f.FCnt,
+		m := &lorawan.MACPayload{FHDR: lorawan.FHDR{DevAddr: Addr(f.DevAddr),
 			FCtrl: lorawan.FCtrl{ADR: f.ADR, ADRACKReq: f.ADRACKReq, ACK: f.ACK}}}
+		setN(&m.FHDR.FCnt, uint64(f.FCnt))
 		if up {
 			m.FHDR.FCtrl.ClassB = f.FPending
 		} else {
@@ -344,13 +345,21 @@ func toLib(f *ref.Frame, cmds bool) (lorawan.PHYPayload, error) {
 		p.MACPayload = &lorawan.JoinRequestPayload{JoinEUI: eui(f.JoinEUI), DevEUI: eui(f.DevEUI), DevNonce: lorawan.DevNonce(f.DevNonce)}
 	case f.MType == ref.MTRejoin:
 		if f.RejoinType == 1 {
-			p.MACPayload = &lorawan.RejoinRequestType1Payload{RejoinType: lorawan.JoinType(f.RejoinType), JoinEUI: eui(f.JoinEUI), DevEUI: eui(f.DevEUI), RJCount1: f.RJCount}
+			pl := &lorawan.RejoinRequestType1Payload{RejoinType: lorawan.JoinType(f.RejoinType), JoinEUI: eui(f.JoinEUI), DevEUI: eui(f.DevEUI)}
+			setN(&pl.RJCount1, uint64(f.RJCount))
+			p.MACPayload = pl
 		} else {
-			p.MACPayload = &lorawan.RejoinRequestType02Payload{RejoinType: lorawan.JoinType(f.RejoinType), NetID: NetID(f.NetID), DevEUI: eui(f.DevEUI), RJCount0: f.RJCount}
+			pl := &lorawan.RejoinRequestType02Payload{RejoinType: lorawan.JoinType(f.RejoinType), NetID: NetID(f.NetID), DevEUI: eui(f.DevEUI)}
+			setN(&pl.RJCount0, uint64(f.RJCount))
+			p.MACPayload = pl
 		}
 	case f.MType == ref.MTJoinAccept:
-		p.MACPayload = &lorawan.JoinAcceptPayload{JoinNonce: lorawan.JoinNonce(f.JoinNonce), HomeNetID: NetID(f.NetID), DevAddr: Addr(f.DevAddr),
-			DLSettings: lorawan.DLSettings{OptNeg: f.OptNeg, RX1DROffset: f.RX1DROffset, RX2DataRate: f.RX2DR}, RXDelay: f.RXDelay, CFList: LibCFList(f.CFList)}
+		pl := &lorawan.JoinAcceptPayload{JoinNonce: lorawan.JoinNonce(f.JoinNonce), HomeNetID: NetID(f.NetID), DevAddr: Addr(f.DevAddr),
+			DLSettings: lorawan.DLSettings{OptNeg: f.OptNeg}, CFList: LibCFList(f.CFList)}
+		setN(&pl.DLSettings.RX1DROffset, uint64(f.RX1DROffset))
+		setN(&pl.DLSettings.RX2DataRate, uint64(f.RX2DR))
+		setN(&pl.RXDelay, uint64(f.RXDelay))
+		p.MACPayload = pl
 	default:
 		p.MACPayload = &lorawan.DataPayload{Bytes: append([]byte{}, f.Opaque...)}
 	}
@@ -365,7 +374,7 @@ func FromLib(p *lorawan.PHYPayload) (*ref.Frame, error) {
 	up := ref.IsUplinkMType(f.MType)
 	switch m := p.MACPayload.(type) {
 	case *lorawan.MACPayload:
-		f.DevAddr, f.FCnt = addrVal(m.FHDR.DevAddr), m.FHDR.FCnt
+		f.DevAddr, f.FCnt = addrVal(m.FHDR.DevAddr), uint32(m.FHDR.FCnt)
 		c := m.FHDR.FCtrl
 		f.ADR, f.ADRACKReq, f.ACK, f.FPending = c.ADR, c.ADRACKReq, c.ACK, c.FPending || c.ClassB
 		var err error
@@ -381,12 +390,12 @@ func FromLib(p *lorawan.PHYPayload) (*ref.Frame, error) {
 	case *lorawan.JoinRequestPayload:
 		f.JoinEUI, f.DevEUI, f.DevNonce = euiVal(m.JoinEUI), euiVal(m.DevEUI), uint16(m.DevNonce)
 	case *lorawan.RejoinRequestType02Payload:
-		f.RejoinType, f.NetID, f.DevEUI, f.RJCount = byte(m.RejoinType), netIDVal(m.NetID), euiVal(m.DevEUI), m.RJCount0
+		f.RejoinType, f.NetID, f.DevEUI, f.RJCount = byte(m.RejoinType), netIDVal(m.NetID), euiVal(m.DevEUI), uint16(m.RJCount0)
 	case *lorawan.RejoinRequestType1Payload:
-		f.RejoinType, f.JoinEUI, f.DevEUI, f.RJCount = byte(m.RejoinType), euiVal(m.JoinEUI), euiVal(m.DevEUI), m.RJCount1
+		f.RejoinType, f.JoinEUI, f.DevEUI, f.RJCount = byte(m.RejoinType), euiVal(m.JoinEUI), euiVal(m.DevEUI), uint16(m.RJCount1)
 	case *lorawan.JoinAcceptPayload:
 		f.JoinNonce, f.NetID, f.DevAddr = uint32(m.JoinNonce), netIDVal(m.HomeNetID), addrVal(m.DevAddr)
-		f.OptNeg, f.RX1DROffset, f.RX2DR, f.RXDelay = m.DLSettings.OptNeg, m.DLSettings.RX1DROffset, m.DLSettings.RX2DataRate, m.RXDelay
+		f.OptNeg, f.RX1DROffset, f.RX2DR, f.RXDelay = m.DLSettings.OptNeg, uint8(m.DLSettings.RX1DROffset), uint8(m.DLSettings.RX2DataRate), uint8(m.RXDelay)
 		var err error
 		if f.CFList, err = ModelCFList(m.CFList); err != nil {
 			return nil, err
@@ -397,6 +406,12 @@ func FromLib(p *lorawan.PHYPayload) (*ref.Frame, error) {
 		return nil, fmt.Errorf("unexpected MACPayload type %T", p.MACPayload)
 	}
 	return f, nil
+}
+
+// setN assigns a number to a library field whatever integer type the field has (a field that turns from a basic into
+// a named integer type must not stop the harness from building).
+func setN[T ~uint8 | ~uint16 | ~uint32 | ~uint64 | ~int | ~int8 | ~int16 | ~int32 | ~int64 | ~uint](dst *T, v uint64) {
+	*dst = T(v)
 }
 
 // LibKey converts a model key.
